@@ -67,8 +67,8 @@ fn bad_value(rng: &mut SplitMix64) -> f64 {
 fn gen_instance(rng: &mut SplitMix64) -> InstSpec {
     let kind = *rng.pick(&KINDS);
     let dynamic = rng.chance(0.4);
-    // run-time dimensions go up to 6; static ones are instantiated for 1..=3
-    let dim = DimMode { dynamic, n: if dynamic && rng.chance(0.3) { rng.range(4, 6) as u8 } else { rng.range(1, 3) as u8 } };
+    // run-time dimensions go up to 6; static ones are instantiated for 1..=4
+    let dim = DimMode { dynamic, n: if dynamic && rng.chance(0.3) { rng.range(4, 6) as u8 } else { rng.range(1, 4) as u8 } };
     let field = if rng.chance(0.5) { Field::Real } else { Field::Complex };
     let good_ctor = if dim.dynamic { BOp::NewDyn(dim.n) } else { BOp::New };
     let (start, end, min, max, tol) = gen_values(rng);
